@@ -112,6 +112,20 @@ theorem hookPass_twice (acc balAfter x : Int) (u : UR) :
   have : acc * (balAfter + x) - acc * balAfter = acc * x := by rw [Int.mul_add]; omega
   simp [this]
 
+/-- the hook must be told the number of SHARES that moved: told `y` when `x` shares were withdrawn, it settles the accrual on a balance
+of `balAfter + y` — what becomes claimable is off by the accrual of `y − x` shares over the pool's whole life … -/
+theorem hookPass_reported (acc balAfter y : Int) (u : UR) :
+    claimable (hookPass acc balAfter y u).pending acc balAfter (hookPass acc balAfter y u).debt =
+    u.pending + pendingDelta acc (balAfter + y) u.debt := by
+  simp [claimable, pendingDelta, debtOf, hookPass]
+
+/-- … WITNESS (the shape of seeded change C13-4): 1000 shares unbonded at redemption rate 1.075 and the hook told the 1075 USDC paid out:
+with an accumulator of 5 per share, 5375 become claimable where 5000 had accrued. -/
+theorem hook_wrong_unit_witness :
+    claimable (hookPass (5 * P) 0 1075 ⟨0, 0⟩).pending (5 * P) 0 (hookPass (5 * P) 0 1075 ⟨0, 0⟩).debt = 5375 ∧
+    claimable (hookPass (5 * P) 0 1000 ⟨0, 0⟩).pending (5 * P) 0 (hookPass (5 * P) 0 1000 ⟨0, 0⟩).debt = 5000 := by
+  constructor <;> decide
+
 /-- WITNESS (the shape of seeded change C13-3): the "already listed" set seeded with the constant `uusdc` on a chain whose USDC is
 an ibc/ voucher, and a pool that has had an incentive in USDC: the base currency is listed twice; with the code's seed it is not. -/
 theorem constant_seed_witness :
